@@ -135,7 +135,16 @@ def run(ctx):
         if not tr0.created:
             return job, tr0, None
         out = {}
+        rr = common.Rng(job["seed"] ^ 0x5bd1e995)
         for name, ops in schedules(job, []).items():
+            if name != "oneshot" and rr.chance(.6):
+                # the ratio already in force is asserted again (soxr_set_io_ratio(r, 0) as a control loop does before every block) at
+                # random points of the schedule: a no-op for the stream
+                ops = list(ops)
+                for _ in range(1 + rr.below(12)):
+                    k = 2 + rr.below(max(1, len(ops) - 3))
+                    if ops[k].split()[0] in ("feed", "pull", "drain", "pulldrain"):
+                        ops.insert(k, "ratio %s 0" % job["cfg"]["ir"])
             out[name] = (ops, cr.run_trace(exe, ops, job["env"], timeout=300))
         return job, tr0, out
 
